@@ -6,14 +6,13 @@ Local Open Scope N_scope.
 
 (* For every state of the module (hence for every history): the records of every kind of addition are, in order,
    exactly the image of the items of that kind that have a tag (for functions / globals: that are locally defined
-   and not deleted; for exports: not deleted; for memories: locally defined; for imports: *every* entry of the
-   import vector, deleted or not - class 204) - one record per tagged item, carrying its tag and content, none for
-   an item without a tag. *)
+   and not deleted; for exports and import entries: not deleted; for memories: locally defined) - one record per
+   tagged item, carrying its tag and content, none for an item without a tag. *)
 Theorem C23_additions :
   forall (s : sst) (lf lg lm : list item),
   fx_types s = map (fun ct => mkRec [fst ct] [] (tgtok (snd ct))) (filter (fun ct => has_tag (snd ct)) (t_types s))
   /\ fx_imports s = map (fun pi : N * imp => mkRec [i_sp (snd pi); i_fp (snd pi)] [] (tgtok (lookup (t_imp_tag s) (fst pi))))
-                        (filter (fun pi : N * imp => has_tag (lookup (t_imp_tag s) (fst pi))) (number 0 (m_imports (t_m s))))
+                        (filter (fun pi : N * imp => negb (i_del (snd pi)) && has_tag (lookup (t_imp_tag s) (fst pi))) (number 0 (m_imports (t_m s))))
   /\ fx_exports s = map (fun e => mkRec [x_name e; x_kind e; x_index e] [] (tgtok (x_tag e)))
                         (filter (fun e => negb (x_del e) && has_tag (x_tag e)) (t_exports s))
   /\ fx_data s = map (fun d => mkRec [if d_active d then 1 else 0; d_byte d; if d_active d then d_mem d else 0] [] (tgtok (d_tag d)))
@@ -71,9 +70,10 @@ Example C23_refuted_D22_block_entry :
   refuted (self_s [] [11] [] [] 1 [] 0 0 [FConst 11; FDrop; FBlock BtEmpty; FEnd; FEnd] []
              [(2%nat, MBlockEntry, [FConst 100001; FDrop], Some 1)] None None) 22.
 Proof. vm_compute. repeat split; reflexivity. Qed.
-(* 204: an imported global added with a tag and deleted again is still reported *)
-Example C23_refuted_204 :
-  refuted (self_s [] [11] [] [] 1 [] 0 0 [FConst 11; FDrop; FEnd] [SAddImport SG 5 1; SDelete SG 0] [] None None) 204.
+(* former D204 (repaired): an imported global added with a tag and deleted again is not reported *)
+Example C23_repaired_204 :
+  let c := self_s [] [11] [] [] 1 [] 0 0 [FConst 11; FDrop; FEnd] [SAddImport SG 5 1; SDelete SG 0] [] None None in
+  agree c = true /\ dom_of (verdict23 c) = true /\ holds_of (verdict23 c) = true /\ so_fx c = Some [].
 Proof. vm_compute. repeat split; reflexivity. Qed.
 (* 205: an `after` probe on the function's final `end` calling function 0; add_import_func moves that function to
    index 1; the record still says `call 0` (the list is neither emitted nor re-mapped) *)
